@@ -265,7 +265,7 @@ Proof. eexists. apply tagfilter_model. Qed.
 
 (* ---------------------------------------------------------------- tagfilter_block *)
 
-Lemma lt_ent_entity : lt_ent = lt_entity.
+Lemma lt_ent_entity : tf_lt = lt_entity.
 Proof. reflexivity. Qed.
 
 Lemma scan_to_lt_spec : forall s run rest,
